@@ -128,6 +128,7 @@ func (rs *RelayState) CopyAllRelayFor() []*Relay {
 	for _, r := range rs.relayForByIdx {
 		ret = append(ret, r)
 	}
+	verifSortRelays(ret)
 	return ret
 }
 
@@ -161,6 +162,7 @@ func (rs *RelayState) CopyRelayForIps() []netip.Addr {
 	for relayIp := range rs.relayForByAddr {
 		currentRelays = append(currentRelays, relayIp)
 	}
+	verifSortAddrs(currentRelays)
 	return currentRelays
 }
 
@@ -171,6 +173,7 @@ func (rs *RelayState) CopyRelayForIdxs() []uint32 {
 	for i := range rs.relayForByIdx {
 		ret = append(ret, i)
 	}
+	verifSortU32(ret)
 	return ret
 }
 
